@@ -130,6 +130,18 @@ pub fn run(rng: &mut Rng, n: usize, out: &mut Out, which: &str) {
                     let plies = if which == "c09" { 4 + rng.below(14) } else { rng.below(if long { 200 } else { 30 }) };
                     let mut b = start;
                     let mut played: Vec<Move> = Vec::new();
+                    // C09: sometimes a LONG game in which a position occurs twice early and is approached a third time
+                    // more than a hundred plies later (nothing in the rules limits how far back an occurrence may lie)
+                    let mut plies = plies;
+                    if which == "c09" && rng.chance(1, 4) {
+                        if let Some(ms) = long_repetition_game(&g, rng, &start) {
+                            for m in &ms { b.make_move(m); }
+                            out.count("long_history_games");
+                            out.add("long_history_plies", ms.len() as u64);
+                            played = ms;
+                            plies = rng.below(3);
+                        }
+                    }
                     for _ in 0..plies {
                         let ms = g.mg.generate_moves(&b);
                         if ms.is_empty() { break; }
@@ -170,6 +182,47 @@ pub fn run(rng: &mut Rng, n: usize, out: &mut Out, which: &str) {
             _ => panic!("unknown generator"),
         }
     }
+}
+
+fn find_move(g: &Gen, b: &Board, from: u8, to: u8) -> Option<Move> {
+    g.mg.generate_moves(b).into_iter().find(|x| x.from == from && x.to == to && x.move_type == MoveType::Quiet)
+}
+
+/// a, n, a', n'  (the start position P occurs a second time), then k, n, (a, n', a', n) x r with r >= 25, then k':
+/// now the opponent's n' would bring P about a THIRD time, its two earlier occurrences lying 4r + 3 > 100 plies back.
+/// a / k are quiet moves of two different non-pawn pieces of the side to move, n one of the opponent; x' undoes x.
+fn long_repetition_game(g: &Gen, rng: &mut Rng, start: &Board) -> Option<Vec<Move>> {
+    let quiet = |b: &Board| -> Vec<Move> { g.mg.generate_moves(b).into_iter().filter(|x| x.move_type == MoveType::Quiet && x.piece_type != crate::pieces::Piece::Pawn).collect() };
+    for _ in 0..20 {
+        let qa = quiet(start);
+        if qa.len() < 2 { return None; }
+        let a = *rng.pick(&qa);
+        let ks: Vec<Move> = qa.iter().filter(|x| x.from != a.from && x.to != a.to && x.to != a.from && x.from != a.to).cloned().collect();
+        if ks.is_empty() { continue; }
+        let k = *rng.pick(&ks);
+        let mut b = *start;
+        let mut ms: Vec<Move> = Vec::new();
+        let mut ok = true;
+        let mut step = |b: &mut Board, ms: &mut Vec<Move>, from: u8, to: u8| -> bool {
+            match find_move(g, b, from, to) { Some(m) => { b.make_move(&m); ms.push(m); true } None => false }
+        };
+        if !step(&mut b, &mut ms, a.from, a.to) { continue; }
+        let qn = quiet(&b);
+        if qn.is_empty() { continue; }
+        let n = *rng.pick(&qn);
+        let r = 25 + rng.below(6) as usize;
+        let mut seq: Vec<(u8, u8)> = vec![(n.from, n.to), (a.to, a.from), (n.to, n.from), (k.from, k.to), (n.from, n.to)];
+        for _ in 0..r { seq.push((a.from, a.to)); seq.push((n.to, n.from)); seq.push((a.to, a.from)); seq.push((n.from, n.to)); }
+        seq.push((k.to, k.from));
+        for (f, t) in seq { if !step(&mut b, &mut ms, f, t) { ok = false; break; } }
+        if !ok { continue; }
+        // the announced third occurrence really is one: n' is available and leads to the start placement
+        match find_move(g, &b, n.to, n.from) {
+            Some(m) => { let q = b.clone_with_move(&m); if q.bb_all() == start.bb_all() && q.active_color == start.active_color { return Some(ms); } }
+            None => {}
+        }
+    }
+    None
 }
 
 fn heavy_small(g: &Gen, rng: &mut Rng) -> Option<Board> {
